@@ -627,8 +627,22 @@ func (s *state) alterTable(t *schema.Table, changes []schema.Change) error {
 		// Changes should be reverted in
 		// a reversed order they were created.
 		sqlx.ReverseChanges(reverse)
-		if cmd.main.Reverse, err = build(&changeGroup{}, reverse); err != nil {
+		// Comments of columns that are added back
+		// are set by statements of their own.
+		var comments []string
+		for _, r := range reverse {
+			if add, ok := r.(*schema.AddColumn); ok {
+				if c := (schema.Comment{}); sqlx.Has(add.C.Attrs, &c) {
+					comments = append(comments, s.columnComment(add, t, add.C, c.Text, "").Cmd)
+				}
+			}
+		}
+		stmt, err := build(&changeGroup{}, reverse)
+		if err != nil {
 			return fmt.Errorf("reverse alter table %q: %v", t.Name, err)
+		}
+		if cmd.main.Reverse = stmt; len(comments) > 0 {
+			cmd.main.Reverse = append([]string{stmt}, comments...)
 		}
 	}
 	cmd.append(s)
